@@ -236,13 +236,16 @@ UNMENTIONED = ["Z1", "Z2", "S.Q", "R.U.Q", "R.Q"]
 
 
 @st.composite
-def edit_dict(draw, o, templates=True, allow_unmentioned=True):
+def edit_dict(draw, o, templates=True, allow_unmentioned=True, focus=None):
     """One neighbour edit of o: change / delete / add a mentioned key, add an unmentioned key,
     or permute the top-level order."""
     kinds = ["set", "set", "set", "del", "perm"] + (["unmentioned"] if allow_unmentioned else [])
     kind = draw(st.sampled_from(kinds))
+    settable = VALUE_KEYS + DISPATCH_KEYS + [THRESH, "L"]
+    focus = [k for k in (focus or []) if k in settable]
     if kind == "set":
-        key = draw(st.sampled_from(VALUE_KEYS + DISPATCH_KEYS + [THRESH, "L"]))
+        # neighbour edits concentrate on the keys the program mentions (when given)
+        key = draw(st.sampled_from(focus)) if focus and draw(st.sampled_from(range(10))) < 7 else draw(st.sampled_from(settable))
         if key in DISPATCH_KEYS:
             v = draw(st.sampled_from(HASHABLE_DISPATCH))
         elif key == THRESH:
@@ -268,7 +271,7 @@ def edit_dict(draw, o, templates=True, allow_unmentioned=True):
 
 
 @st.composite
-def histories(draw, min_len=2, max_len=8, templates=True, allow_unmentioned=True, p_present=0.6):
+def histories(draw, min_len=2, max_len=8, templates=True, allow_unmentioned=True, p_present=0.6, focus=None):
     """A list of option dictionaries built from neighbour edits, exact repeats and fresh draws."""
     n = draw(st.integers(min_len, max_len))
     hist = [draw(option_dicts(templates=templates, p_present=p_present))]
@@ -281,9 +284,9 @@ def histories(draw, min_len=2, max_len=8, templates=True, allow_unmentioned=True
         elif how == "fresh":
             hist.append(draw(option_dicts(templates=templates, p_present=p_present)))
         else:
-            o, _ = draw(edit_dict(hist[j], templates, allow_unmentioned))
+            o, _ = draw(edit_dict(hist[j], templates, allow_unmentioned, focus))
             if how == "edit2":
-                o, _ = draw(edit_dict(o, templates, allow_unmentioned))
+                o, _ = draw(edit_dict(o, templates, allow_unmentioned, focus))
             hist.append(o)
         kinds.append(how)
     return hist
